@@ -16,7 +16,8 @@ CONSTANTS Kinds,        \* subset of {"choice", "plain", "confirm"}
           Muts,         \* what the caller did to its choice list between building the question and asking it:
                         \*   0 nothing, 1 appended the last choice, 2 replaced the first choice, 3 removed a trailing one
           RouteIds,     \* which of the routes by which the I/O is prepared (see RouteOf)
-          Reconfs,      \* what the caller does to the object before asking it again: 0 nothing, 2 set_multi_select(not multi)
+          Reconfs,      \* what the caller does before asking the object again: 0 nothing, 2 set_multi_select(not multi),
+                        \* 3 io.set_input(<one line>) - a new, shorter script on the SAME I/O, 4 io.clear_input()
           Rounds        \* 1: one dialogue;  2: the same question OBJECT is asked a second time on the rest of the input
 
 VARIABLES idx,          \* the indices the initial state was built from (constant along a behaviour)
@@ -115,9 +116,12 @@ Init == (InitChoice \/ InitPlain \/ InitConfirm)
 \* the same question object is asked again where the first dialogue stopped reading
 Again == /\ pc = "done" /\ round < Rounds /\ round' = round + 1
          /\ \E rc \in Reconfs :
-              /\ (rc = 2 => q.kind = "choice")
+              /\ (rc = 2 => q.kind = "choice") /\ (rc \in {3, 4} => q.built = q.choices)
               /\ first' = [out |-> out, r |-> obs.reads, n |-> pos - start, e |-> obs.errs, w |-> obs.prompts, rc |-> rc]
-              /\ IF rc = 2 THEN ReAskAs([q EXCEPT !.multi = ~q.multi], script, pos) ELSE ReAsk(script, pos)
+              /\ IF rc = 2 THEN ReAskAs([q EXCEPT !.multi = ~q.multi], script, pos)
+                 ELSE IF rc = 3 THEN ReAsk(<<AnswerPool[5]>>, 0)        \* the input is replaced: reading starts at its first line
+                 ELSE IF rc = 4 THEN ReAsk(<<>>, 0)
+                 ELSE ReAsk(script, pos)
          /\ UNCHANGED <<idx, route>>
 MNext == (Next /\ UNCHANGED <<idx, route, round, first>>) \/ Again
 CNext == CoreNext /\ UNCHANGED <<idx, route, round, first>>
@@ -141,6 +145,7 @@ P_reject         == Fin => PReject(q, script, start, O)
 P_attempts       == Fin => PAttempts(q, O)
 P_errors         == Fin => PErrors(q, O)
 P_eof            == Fin => PEof(q, O)
+P_typed          == Fin => PTyped(script, start, O)
 P_confirm        == Fin => PConfirm(q, script, start, O)
 H_sane           == Fin => HSane(script, start, O)
 \* A-level: one prompt per read, nothing happens after the outcome is fixed
@@ -160,7 +165,7 @@ ASSUME PrintT(ToJson([pools |-> TRUE, choices |-> FlatAll(ChoicePool), answers |
 
 OutJ(o) == [ok |-> o.kind, x |-> o.cls, t |-> o.val.t, vs |-> Flat(o.val.s), vl |-> FlatAll(o.val.l), vb |-> o.val.b]
 RouteJ == [k \in 1..Len(route) |-> [op |-> route[k].op, ls |-> FlatAll(route[k].ls), b |-> route[k].b]]
-Emit == Last => PrintT(ToJson([kind |-> q.kind, b |-> FlatAll(q.built), rounds |-> Rounds, route |-> RouteJ,
+Emit == Last => PrintT(ToJson([kind |-> q.kind, b |-> FlatAll(q.built), rounds |-> Rounds, route |-> RouteJ, s2 |-> FlatAll(script),
                               f |-> [o |-> OutJ(first.out), r |-> first.r, n |-> first.n, e |-> first.e, w |-> first.w, rc |-> first.rc],
                               c |-> idx.c, s |-> idx.s, d |-> idx.d, p |-> idx.p, m |-> q.multi,
                               a |-> q.maxAtt, i |-> q.interactive, v |-> q.validator, db |-> q.defB,
